@@ -14,6 +14,7 @@
 #include <stdexcept>
 #include <type_traits>
 #include <cstdlib>
+#include <sstream>
 
 #include "optypes.h"
 #include "accessors.h"
@@ -174,6 +175,15 @@ template <class G> struct Exec {
   typedef Eigen::Map<const T> CT;
 
   template <class X> static void put_e(Out& out, const X& x) { put(out.v, out.nv, x.coeffs()); }
+  // operator<< : the printed text, as character codes (so that it takes part in digests and comparisons)
+  template <class X> static void stream_out(const X& x, Out& out) {
+    std::ostringstream os;
+    os.precision(17);
+    os << x;
+    const std::string str = os.str();
+    out.nv = 0;
+    for (size_t i = 0; i < str.size() && out.nv < MAXV; ++i) out.v[out.nv++] = (double)(unsigned char)str[i];
+  }
 
   // ---- capability dependent pieces ----------------------------------------
   // BundleBase::transform() does not compile on the pinned tree (DESIGN section 6)
@@ -312,7 +322,14 @@ template <class G> struct Exec {
       case OP_ADJ: put(out.v, out.nv, a.adj()); break;
       case OP_TRANSFORM: transform_of(a, out, std::integral_constant<bool, !IsBundle::value>()); break;
       case OP_ROTATION: rotation_of(a, out, HasRotation()); break;
-      case OP_COEFFS: put_e(out, a); break;
+      case OP_COEFFS:
+        if (op.variant & V_ALT) {   // element-wise read access: operator[], data()[i], size()
+          out.nv = 0;
+          for (unsigned i = 0; i < a.size(); ++i) { out.v[out.nv++] = (double)a[i]; }
+          for (int i = 0; i < Rep; ++i) if ((double)a.data()[i] != out.v[i]) out.flags |= 2;
+        } else put_e(out, a);
+        break;
+      case OP_STREAM: stream_out(a, out); break;
       case OP_CONSTRUCT: {   // owning object (and a std::vector of them) built from whatever kind the operand is
         const G x(a);
         G y; y = a;
@@ -404,6 +421,7 @@ template <class G> struct Exec {
         put_e(out, o.template cast<S>());
       } break;
       case OP_JT_MUL: jt_mul(t, out, std::is_same<TA, T>()); break;
+      case OP_T_STREAM: stream_out(t, out); break;
       case OP_T_ACCESSORS: { Collector c(out); if (!TAcc<T>::read(t, c)) out.status = 9; } break;   // J*t only instantiates for owning tangents
       case OP_T_RPLUS_X: case OP_T_LPLUS_X: case OP_T_PLUS_X: case OP_T_ADD_X:
         // these take `const LieGroup&`: a view operand is converted to a temporary owning object by the library
